@@ -73,17 +73,20 @@ OffPairsQuick == {<<1, 1>>, <<2, 11>>, <<22, 21>>, <<23, 22>>, <<22, 23>>}
 OffPairsFull == OffPairsQuick \cup {<<21, 22>>, <<21, 23>>, <<23, 21>>, <<11, 2>>, <<3, 3>>}
 OffVCQuick == {"z0", "s3", "n5", "e11", "max", "min", "h", "ulp", "z"}
 \* `to` is `return self.in_units(...)`: the quick tier replays the alias on the dyadic families only
-RRoutesQuick == CopyRoutes \ {"in_units"}
+\* (so is the same-dimension branch of to_equivalent)
+RRoutesQuick == CopyRoutes \ {"in_units", "to_equivalent"}
 \* pairs that are there for the cgs base routes
 CgsOnlyPairs == {<<24, 25>>, <<6, 6>>}
 \* default registry: N -> kg*m/s**2, dyn -> g*cm/s**2 (factor one, another name), cm -> cm (identity; the base unit of cgs),
 \* degC -> K, degC -> degF, degF -> degC, K -> degF, degF -> K, K -> degC
+\* round 7b, electromagnetic pairs: mA -> A, kV -> V, uC -> C, A -> A (mks); A -> statA (x 2997924580), T -> G (x 1e4) (cgs)
+EMPairs == {<<28, 26>>, <<31, 32>>, <<33, 34>>, <<26, 26>>, <<26, 27>>, <<29, 30>>}
 R7Pairs == {<<17, 18>>, <<24, 25>>, <<6, 6>>, <<19, 21>>, <<19, 20>>, <<20, 19>>, <<21, 20>>, <<20, 21>>, <<21, 19>>}
-RealPairsQuick == (RealPairs \ {<<5, 4>>, <<1, 12>>}) \cup {<<17, 18>>, <<24, 25>>, <<6, 6>>, <<19, 21>>, <<19, 20>>}
-RealPairsFull == RealPairs \cup R7Pairs
+RealPairsQuick == (RealPairs \ {<<5, 4>>, <<1, 12>>}) \cup {<<17, 18>>, <<24, 25>>, <<6, 6>>, <<19, 21>>, <<19, 20>>} \cup EMPairs
+RealPairsFull == RealPairs \cup R7Pairs \cup EMPairs
 \* the unit a base-unit route ends in must be the pair's target
-BaseTargetOK(route, to) == CASE route \in {"in_base", "in_mks"} -> to \in {1, 14, 18, 21}
-                             [] route = "in_cgs" -> to \in {6, 25, 21}
+BaseTargetOK(route, to) == CASE route \in {"in_base", "in_mks"} -> to \in {1, 14, 18, 21, 26, 32, 34}
+                             [] route = "in_cgs" -> to \in {6, 25, 21, 27, 30}
                              [] OTHER -> TRUE
 VARIABLE c
 vars == <<c>>
@@ -95,13 +98,14 @@ BaseRoutes == {"in_base", "in_mks", "in_cgs"}
 ConvCase(route, d, vc, from, to, shape, real) ==
   LET vcs == Elems(vc, d, shape)
       k == IF real THEN RealDir(from, to) ELSE Factor(from, to)
-      rc == ConvOut(route, d, vcs, k, shape)
-      ri == ConvOut(Twin(route), d, vcs, k, shape)
-      ident == from = to IN
+      ident == from = to
+      em == from \in EMUnits
+      rc == ConvOutEM(route, d, vcs, k, shape, em, ident)
+      ri == ConvOutEM(Twin(route), d, vcs, k, shape, em, ident) IN
   [fam |-> "conv", route |-> route, twin |-> Twin(route), d |-> d, vc |-> vc, from |-> from, to |-> to, k |-> k,
    shape |-> shape, vcs |-> vcs, real |-> real, mc |-> rc, mi |-> ri,
    \* sh: what the conversion adds after scaling (units with an offset); ident: source unit = target unit
-   sh |-> IF real THEN RZero ELSE Shift(from, to), ident |-> ident,
+   sh |-> IF real THEN RZero ELSE Shift(from, to), ident |-> ident, em |-> em,
    mfail |-> {[route |-> route, cl |-> x] : x \in ConvFailsI(route, d, vcs, rc, ident)}
              \cup {[route |-> Twin(route), cl |-> x] : x \in ConvFailsI(Twin(route), d, vcs, ri, ident)}
              \cup (IF C17c(rc, ri, rc.vok = ri.vok) THEN {} ELSE {[route |-> route, cl |-> "C17c"]})]
@@ -183,7 +187,9 @@ Next ==
         /\ \E route \in RRoutes, d \in DT, vc \in ConvVC, p \in RPairs, shape \in Shapes :
              /\ Applies(vc, d)
              /\ (p \in CgsOnlyPairs => route \in {"in_cgs", "to", "to_value"})
-             /\ (p \in R7Pairs => vc \in OffVC)
+             /\ (p \in R7Pairs \cup EMPairs => vc \in OffVC)
+             \* (the spectral equivalence does not relate mks and cgs E&M units; to_value = to(...).value)
+             /\ (p \in EMPairs => route \in BaseRoutes \cup {"to", "in_units"})
              /\ BaseTargetOK(route, p[2])
              /\ (p[1] = 15 => ~IsComplex(d))
              /\ c' = ConvCase(route, d, vc, p[1], p[2], shape, TRUE)
@@ -207,7 +213,8 @@ Export == c # <<>> => PrintT(ToJson(c))
 \* Model-level theorems about the transcription, checked on every case (plain invariants):
 \* the transcribed design never yields integer data and refuses only where C17 allows a refusal
 NoIntegerResult == c # <<>> =>
-   IF c.fam = "conv" THEN (~c.mc.raise => c.mc.kind \in {"f", "c"}) /\ (~c.mi.raise => c.mi.kind \in {"f", "c"})
+   IF c.fam = "conv" THEN (~c.mc.raise => (c.mc.kind \in {"f", "c"} \/ (c.em /\ c.ident /\ "embase" \notin Fixes)))
+                          /\ (~c.mi.raise => c.mi.kind \in {"f", "c"})
    ELSE (~c.m.raise => (c.m.kind \in {"f", "c", "b"} \/ (c.fam = "comb" /\ c.form \in SetForms)))
 RefusalsAllowed == c # <<>> =>
    IF c.fam = "conv" THEN \A x \in c.mfail : x.cl = "C17_refuse" => (x.route = "to_value" /\ IsComplex(c.d) /\ c.shape = "q")
